@@ -133,6 +133,37 @@ def _w_g2(chunk):
     return r
 
 
+def _w_list(chunk):
+    r = core.Res()
+    seeds, reps, items = chunk
+    for k, G in items:
+        check_graph(r, k, G, seeds, reps)
+        r.ctr['higher_order_graphs'] += 1
+    k, G = items[-1]
+    r.sample({'k': k, 'arcs': [(u, j) for u in range(len(G)) for j in range(4) if G[u][j] >= 0][:30], 'repeats': [1] + list(reps)}, 1)
+    return r
+
+
+def higher_order(quick):
+    """Orders 3-5: complete graphs minus at most one arc (order 3), filter-generated graphs (reference gfp)."""
+    from .C03 import filter_masks
+    items = [(3, O.complete(3)), (4, O.complete(4))]
+    for u in range(64):
+        for j in range(4):
+            if quick and (u * 4 + j) % 5:
+                continue
+            G = O.complete(3)
+            G[u][j] = -1
+            items.append((3, G))
+    for k, mask in filter_masks(3, 4 if quick else 5):
+        for t in (1, 2):
+            S = O.gfp(mask, k, t)
+            if S:
+                items.append((k, O.from_mask(S, k)))
+        items.append((k, O.from_mask(mask, k)))      # the valid graph: dead ends and transient parts
+    return items
+
+
 def run(ctx):
     from ..observe import install
     import dsw
@@ -143,14 +174,17 @@ def run(ctx):
     ctx.pmap(_w_g1, [(lo, hi, seeds, reps) for lo, hi in core.ranges(1 << 16, 256)])
     ctx.log('G1 done', ctx.res.evals)
     ctx.pmap(_w_g2, [(lo, hi, seeds[:1] if ctx.quick else seeds[:3], reps[:1] if ctx.quick else reps) for lo, hi in core.ranges(1 << 16, 256)])
+    ho = higher_order(ctx.quick)
+    ctx.pmap(_w_list, [(seeds[:1], reps[:1], c) for c in core.chunks_of(ho, 3)])
     ctx.exhaustive = False
-    ctx.bounds = {'graphs': 'all 65536 order-1 arc subsets; all 65536 order-2 vertex-induced graphs', 'repeats': [1] + reps,
+    ctx.bounds = {'higher_orders': '%d graphs of order 3-5 (complete minus one arc, filter coding graphs and valid graphs)' % len(ho),
+                  'graphs': 'all 65536 order-1 arc subsets; all 65536 order-2 vertex-induced graphs', 'repeats': [1] + reps,
                   'seeds': seeds, 'spectral_gap_accepted_at': GAP}
     ctx.rule = ('one case = (graph, repeats, RNG seed): result <= 2, 0 for arc-less graphs, log2 d for regular graphs in single-start '
                 'mode, within 1e-4 of log2 of a certified Collatz-Wielandt enclosure of the spectral radius on graphs meeting the '
                 'structural precondition (own Tarjan SCC + period, conservative spectral gap 0.8); non-trivial = precondition graph')
     ctx.assumptions = ['the continuum of random initial vectors cannot be enumerated: the owned environment answer is the seeded numpy global RNG, '
-                       'explored over a finite seed menu derived from VERIF_SEED', 'orders > 2 not explored',
+                       'explored over a finite seed menu derived from VERIF_SEED', 'orders > 2 only through an enumerated family of complete-minus-one-arc and filter graphs',
                        'the spectral gap is read from numpy eigvals with a safety margin (0.8 instead of 0.9); shrinking the checked set cannot cause an alarm']
     ctx.guard('precondition graphs', ctx.res.ctr['precondition_checked_random-init'] > 5000)
     ctx.guard('regular graphs', ctx.res.ctr['regular_checked'] > 100)
